@@ -108,6 +108,7 @@ func (c *Container) Length() (length int) {
 // Replace replaces all held data with a new data slice. Data will NOT be copied.
 func (c *Container) Replace(data []byte) {
 	c.compartments = [][]byte{data}
+	c.offset = 0
 }
 
 // CompileData concatenates all bytes held by the container and returns it as one single []byte slice. Data will NOT be copied and is NOT consumed.
@@ -127,6 +128,9 @@ func (c *Container) CompileData() []byte {
 
 // Get returns the given amount of bytes. Data MAY be copied and IS consumed.
 func (c *Container) Get(n int) ([]byte, error) {
+	if n < 0 {
+		return nil, errors.New("container: invalid amount of data requested")
+	}
 	buf := c.Peek(n)
 	if len(buf) < n {
 		return nil, errors.New("container: not enough data to return")
@@ -237,6 +241,14 @@ func (c *Container) PrependLength() {
 func (c *Container) Peek(n int) []byte {
 	// Check requested length.
 	if n <= 0 {
+		return nil
+	}
+
+	// Never return (or allocate) more than is held.
+	if length := c.Length(); n > length {
+		n = length
+	}
+	if n == 0 || c.offset >= len(c.compartments) {
 		return nil
 	}
 
